@@ -99,10 +99,20 @@ func genCPlan1(rt *rapid.T, bad bool) CPlan {
 			if goaways == 0 {
 				kinds = []string{idStream, idStream, idStream, idStream, idMax, idMax, idMax, idZero, idEven, idAbove}
 			}
+			if bad {
+				// mostly: a legal first GOAWAY that keeps streams alive, then an illegal one
+				kinds = []string{idAbove, idAbove, idPrev, idPrev, idEven, idEven, idMax}
+				if goaways == 0 {
+					kinds = []string{idMax, idMax, idStream, idEven, idEven}
+				}
+			}
 			op.IDK = rapid.SampledFrom(kinds).Draw(rt, "idk")
 			switch op.IDK {
 			case idStream, idPrev:
 				op.D = rapid.SampledFrom([]int{0, 0, 0, -2, 2}).Draw(rt, "d")
+				if bad && op.IDK == idPrev {
+					op.D = 2
+				}
 			case idAbove:
 				op.D = rapid.IntRange(1, 3).Draw(rt, "d")
 			}
